@@ -188,10 +188,39 @@ fn utf8_fill(n: usize, e: &mut Ent) -> Vec<u8> {
     v
 }
 
+/// well-known values of 2- and 4-byte fields (AS_TRANS, private and reserved AS numbers, VLAN
+/// limits, registered ports, powers of two and their neighbours): a dictionary, as fuzzers use
+const DICT: [u32; 24] = [23456, 64512, 65534, 65535, 4094, 4095, 4096, 1023, 1024, 53, 80, 443, 123, 179, 2055, 4739, 9995, 6343, 255, 256, 32767, 32768, 65536, 4200000000];
+/// texts that programs print for "no value"
+const MAGIC_TEXT: [&str; 10] = ["(null)", "null", "NULL", "N/A", "-", "none", "unknown", "0", "", "?"];
+
 /// value bytes for a field of `n` bytes
 pub fn gen_value(dt: &FieldDataType, n: usize, e: &mut Ent, utf8_only: bool) -> Vec<u8> {
     if n == 0 {
         return vec![];
+    }
+    if (n == 2 || n == 4) && matches!(dt, FieldDataType::UnsignedDataNumber | FieldDataType::Vec | FieldDataType::Unknown) {
+        let s = e.next();
+        if s < 20 {
+            let v = DICT[e.next() as usize % DICT.len()];
+            if n == 4 || v <= 0xffff {
+                return v.to_be_bytes()[4 - n..].to_vec();
+            }
+        }
+    }
+    if *dt == FieldDataType::String {
+        let s = e.next();
+        if s < 16 {
+            // a "no value" text, if it fits: alone (variable-length callers ask for its exact
+            // length) or followed by NUL / space filling
+            let t = MAGIC_TEXT[e.next() as usize % MAGIC_TEXT.len()].as_bytes();
+            if t.len() <= n {
+                let fill = if utf8_only || s % 2 == 0 { b' ' } else { 0u8 };
+                let mut v = t.to_vec();
+                v.resize(n, fill);
+                return v;
+            }
+        }
     }
     if *dt == FieldDataType::Float64 && n == 8 {
         let s = e.next();
@@ -437,6 +466,7 @@ fn build_sets(
                 let mut body = W::default();
                 let mut n = 0usize;
                 let mut last_len = 0usize;
+                let mut prev_rec: Option<Vec<u8>> = None;
                 let max_recs = if proto == Proto::V9 && def.kind == Kind::Options && !o.multi_optdata_v9 {
                     1
                 } else {
@@ -457,7 +487,11 @@ fn build_sets(
                             dtype(proto, f)
                         };
                         if f.len == VARLEN {
-                            let l = varlen_len(&mut e);
+                            let mut l = varlen_len(&mut e);
+                            if dt == FieldDataType::String && l % 5 == 1 {
+                                // the length of one of the "no value" texts
+                                l = [6usize, 4, 3, 1, 7][l % 5];
+                            }
                             let long = e.next() % 4 == 0;
                             let v = gen_value(&dt, l, &mut e, o.utf8_only);
                             enc_varlen(&mut rec, &v, long);
@@ -470,6 +504,42 @@ fn build_sets(
                             rec.bytes(&v);
                         }
                     }
+                    // a record equal to its predecessor (a retransmitted or unchanged flow), one
+                    // time in eight - an exact copy, so every constraint the predecessor met
+                    // (length prefixes, UTF-8, named protocol numbers) still holds
+                    if let Some(p) = &prev_rec {
+                        let r = e.next();
+                        if r < 32 {
+                            rec.0 = p.clone();
+                        } else if r < 56 && def.fields.iter().all(|f| f.len != VARLEN) && p.len() == rec.0.len() {
+                            // ... or a record that continues its predecessor: a copy in which
+                            // one field takes the value the predecessor had in ANOTHER field of
+                            // the same type and width (this flow starts where the last one
+                            // ended, this source is the last destination)
+                            let mut offs = vec![];
+                            let mut at = 0usize;
+                            for (fi, f) in def.fields.iter().enumerate() {
+                                let dt = if f.ent.is_some() || (proto == Proto::V9 && def.kind == Kind::Options && fi < def.scope_n as usize) {
+                                    FieldDataType::Vec
+                                } else {
+                                    dtype(proto, f)
+                                };
+                                offs.push((at, f.len as usize, dt));
+                                at += f.len as usize;
+                            }
+                            let i = e.next() as usize % offs.len();
+                            let (oi, wi, ti) = &offs[i];
+                            let ok_type = !matches!(ti, FieldDataType::String | FieldDataType::ProtocolType);
+                            if let Some((oj, _, _)) = offs.iter().enumerate().find(|(j, (_, w, t))| *j != i && w == wi && t == ti).map(|(_, x)| x) {
+                                if ok_type && *wi > 0 {
+                                    let mut c = p.clone();
+                                    let src: Vec<u8> = p[*oj..*oj + *wi].to_vec();
+                                    c[*oi..*oi + *wi].copy_from_slice(&src);
+                                    rec.0 = c;
+                                }
+                            }
+                        }
+                    }
                     if o.varlen_monotone && rec.0.len() < last_len {
                         continue;
                     }
@@ -478,6 +548,7 @@ fn build_sets(
                     }
                     last_len = rec.0.len();
                     body.bytes(&rec.0);
+                    prev_rec = Some(rec.0.clone());
                     n += 1;
                 }
                 if n == 0 {
@@ -546,6 +617,7 @@ pub fn build(plan: &StreamPlan, o: &BuildOpts) -> Built {
     let mut calls = vec![];
     let mut data_records = 0usize;
     let mut session = Session { mode: 0, counter: 0, source: 0, started: false };
+    let mut fixed_seq: Option<(u32, u32)> = None;
     for cp in &plan.calls {
         let mut packets = vec![];
         let single = cp.len() == 1;
@@ -555,6 +627,23 @@ pub fn build(plan: &StreamPlan, o: &BuildOpts) -> Built {
                     let (ver, rl) = if *v7 { (7u16, 52usize) } else { (5u16, 48usize) };
                     let mut h = hdr.clone();
                     h.resize(20, 0);
+                    // flow_sequence (bytes 16..20 of the packet = 12..16 here) continues from
+                    // packet to packet - with the occasional gap or repeat - in two plans out
+                    // of three (decided by the first V5/V7 header of the plan)
+                    let word = u32::from_be_bytes([h[12], h[13], h[14], h[15]]);
+                    match fixed_seq {
+                        None => fixed_seq = Some((word % 3, word.wrapping_add(recs.len() as u32))),
+                        Some((0, _)) => {}
+                        Some((m, next)) => {
+                            let seq = match word % 8 {
+                                0 => next.wrapping_add(1 + word / 8 % 50), // records were lost
+                                1 => next.wrapping_sub(recs.len() as u32),  // the previous packet again
+                                _ => next,
+                            };
+                            h[12..16].copy_from_slice(&seq.to_be_bytes());
+                            fixed_seq = Some((m, seq.wrapping_add(recs.len() as u32)));
+                        }
+                    }
                     let rs: Vec<Vec<u8>> = recs
                         .iter()
                         .map(|r| {
@@ -925,6 +1014,15 @@ pub fn fixed_plan(max_recs: usize) -> BoxedStrategy<PktPlan> {
                 _ => *val,
             };
             r.extend_from_slice(&v.to_be_bytes()[4 - w..]);
+        }
+        // one record in six has two equal addresses / ports / AS numbers / interfaces
+        // (src = dst, next hop = destination, router = next hop ...)
+        const PAIRS: [(usize, usize, usize); 8] = [(0, 4, 4), (4, 8, 4), (0, 8, 4), (8, 48, 4), (32, 34, 2), (40, 42, 2), (12, 14, 2), (24, 28, 4)];
+        let (sel, pick) = (fs[0].0, fs[1].0);
+        if sel % 6 == 5 {
+            let (a, b, w) = PAIRS[pick as usize % PAIRS.len()];
+            let src: Vec<u8> = r[a..a + w].to_vec();
+            r[b..b + w].copy_from_slice(&src);
         }
         r
     });
